@@ -156,7 +156,14 @@ async def run_scheduler_loop(scheduler: TaskiqScheduler) -> None:
     """
     loop = asyncio.get_event_loop()
     running_schedules = set()
+    pending_schedules: "Dict[str, asyncio.Task[None]]" = {}
     while True:
+        # One-time schedules that were sent before we ask sources
+        # for schedules can be forgotten. The ones that complete
+        # while sources are answering may still be in their answers.
+        for schedule_id, send_task in list(pending_schedules.items()):
+            if send_task.done():
+                del pending_schedules[schedule_id]
         # We use this method to correctly sleep for one minute.
         scheduled_tasks = await get_all_schedules(scheduler)
         for source, task_list in scheduled_tasks.items():
@@ -173,11 +180,19 @@ async def run_scheduler_loop(scheduler: TaskiqScheduler) -> None:
                     )
                     continue
                 if task_delay is not None:
+                    one_time = task.time is not None and task.cron is None
+                    # The lookahead overlaps with the next iteration, so a
+                    # one-time schedule which is already being sent
+                    # must not be sent once more.
+                    if one_time and task.schedule_id in pending_schedules:
+                        continue
                     send_task = loop.create_task(
                         delayed_send(scheduler, source, task, task_delay),
                     )
                     running_schedules.add(send_task)
                     send_task.add_done_callback(running_schedules.discard)
+                    if one_time:
+                        pending_schedules[task.schedule_id] = send_task
         next_minute = datetime.now().replace(second=0, microsecond=0) + timedelta(
             minutes=1,
         )
